@@ -1,86 +1,1145 @@
+// Family c49: rpc server response bookkeeping (rpc/handler.go, json.go, subscription.go)
+// vs coq/Rpc/Batch.v.  Raw JSON in, raw JSON out, through rpc.Server.ServeCodec on an
+// in-memory connection (mode 0) or rpc.Server.ServeHTTP with a request timeout (mode 1).
+//
+// case    (mode item_limit resp_limit inv_size (message ...))     | probe (9 n timeout_us)
+// message (0 entry fire) | (1 (entry ...) fire)
+// entry   (vsn idkind idtok method params result error out size sub late behav)
+// See coq/Run/C49.v for the meaning of the fields shared with the model; behav selects the
+// test method: 0 quick 1 fail 2 nosuch 3 big 4 badparams 5 block 6 subscribe.
 package main
 
 import (
+	"bytes"
 	"context"
 	"encoding/json"
+	"errors"
 	"fmt"
+	"io"
 	"net/http"
 	"net/http/httptest"
-	"os"
+	"strconv"
 	"strings"
+	"sync"
+	"sync/atomic"
 	"time"
 
+	. "gethverif/harness/hxlib"
 	"github.com/ethereum/go-ethereum/rpc"
 )
 
-type svc struct{}
+// ---------------------------------------------------------------- test service
 
-func (svc) Quick(ctx context.Context) int { return 1 }
-func (svc) Spin(ctx context.Context, us int) int {
-	t := time.Now()
-	for time.Since(t) < time.Duration(us)*time.Microsecond {
+type caseState struct {
+	blockEntered atomic.Bool   // t_block was entered before the context was cancelled
+	written      chan struct{} // closed at the first byte written to the client
+	writtenOnce  sync.Once
+	late         sync.WaitGroup // goroutines issuing Notify after the subscribe call returned
+}
+
+func (cs *caseState) markWritten() { cs.writtenOnce.Do(func() { close(cs.written) }) }
+
+type svc struct{ cs *caseState }
+
+func (s *svc) Quick(ctx context.Context) int         { return 1 }
+func (s *svc) Fail(ctx context.Context) (int, error) { return 0, errors.New("boom") }
+func (s *svc) Big(ctx context.Context, n int) string { return strings.Repeat("x", n) }
+
+// Block returns only after the request context was cancelled by the timeout timer AND the
+// timeout response reached the client (or 30 ms passed, for batches with nothing to answer).
+func (s *svc) Block(ctx context.Context) int {
+	if ctx.Err() == nil {
+		s.cs.blockEntered.Store(true)
+	}
+	<-ctx.Done()
+	select {
+	case <-s.cs.written:
+	case <-time.After(30 * time.Millisecond):
 	}
 	return 1
 }
-func (svc) Wait(ctx context.Context) int { <-ctx.Done(); return 2 }
 
-func main() {
-	mode := os.Args[1]
-	srv := rpc.NewServer()
-	srv.RegisterName("t", svc{})
-	srv.SetBatchLimits(0, 0)
-	n := 20000
-	var sb strings.Builder
-	sb.WriteString("[")
-	for i := 0; i < n; i++ {
-		if i > 0 {
-			sb.WriteString(",")
+// Ev is the subscription "ev": k notifications before returning, j after.
+func (s *svc) Ev(ctx context.Context, k, j int) (*rpc.Subscription, error) {
+	n, ok := rpc.NotifierFromContext(ctx)
+	if !ok {
+		return nil, rpc.ErrNotificationsUnsupported
+	}
+	sub := n.CreateSubscription()
+	for i := 0; i < k; i++ {
+		n.Notify(sub.ID, i)
+	}
+	s.cs.late.Add(1)
+	go func() {
+		defer s.cs.late.Done()
+		for i := k; i < k+j; i++ {
+			n.Notify(sub.ID, i)
 		}
-		if mode == "wait" && i == 5 {
-			fmt.Fprintf(&sb, `{"jsonrpc":"2.0","id":%d,"method":"t_wait"}`, i)
-		} else {
-			fmt.Fprintf(&sb, `{"jsonrpc":"2.0","id":%d,"method":"t_quick"}`, i)
+	}()
+	return sub, nil
+}
+
+// ---------------------------------------------------------------- case decoding
+
+type entry struct {
+	vsn                   bool
+	idkind, idtok         int
+	method                int
+	params, result, error bool
+	out, size             int
+	sub, late             int
+	behav                 int
+}
+
+func decEntry(x Sx) entry {
+	l := AsList(x)
+	if len(l) < 12 {
+		panic("hxlib: entry needs 12 fields")
+	}
+	return entry{AsBool(l[0]), AsInt(l[1]), AsInt(l[2]), AsInt(l[3]), AsBool(l[4]), AsBool(l[5]), AsBool(l[6]),
+		AsInt(l[7]), AsInt(l[8]), AsInt(l[9]), AsInt(l[10]), AsInt(l[11])}
+}
+
+func (e entry) sx() Sx {
+	return L(Bool(e.vsn), I(int64(e.idkind)), I(int64(e.idtok)), I(int64(e.method)), Bool(e.params), Bool(e.result),
+		Bool(e.error), I(int64(e.out)), I(int64(e.size)), I(int64(e.sub)), I(int64(e.late)), I(int64(e.behav)))
+}
+
+// the JSON-RPC 2.0 reading of an entry (the oracle's own classification, from the
+// generator's features, independent of rpc/json.go)
+func (e entry) validID() bool        { return e.idkind == 1 }
+func (e entry) isCall() bool         { return e.vsn && e.validID() && e.method != 0 }
+func (e entry) isNotification() bool { return e.vsn && e.idkind == 0 && e.method != 0 }
+func (e entry) isResponse() bool {
+	return e.vsn && e.validID() && e.method == 0 && !e.params && (e.result || e.error)
+}
+
+// entries the server neither executes nor answers: responses, and *_subscription notifications
+func (e entry) dropped() bool { return e.isResponse() || (e.isNotification() && e.method == 2) }
+
+func idText(kind, tok int) string {
+	switch kind {
+	case 1:
+		if tok == 0 {
+			return "null"
+		}
+		if tok%2 == 1 {
+			return strconv.Itoa(tok)
+		}
+		return `"s` + strconv.Itoa(tok) + `"`
+	case 2:
+		if tok%2 == 1 {
+			return `{"a":` + strconv.Itoa(tok) + `}`
+		}
+		return `[` + strconv.Itoa(tok) + `]`
+	}
+	return ""
+}
+
+var methodNames = []string{"t_quick", "t_fail", "t_nosuch", "t_big", "t_quick", "t_block", "t_subscribe"}
+
+func (e entry) json() string {
+	if !e.vsn && e.idkind == 0 && e.method == 0 && !e.params && !e.result && !e.error {
+		switch e.idtok { // entries that are not objects at all decode to the zero message
+		case 7:
+			return "null"
+		case 8:
+			return "1"
+		case 9:
+			return `"str"`
 		}
 	}
-	sb.WriteString("]")
-	body := sb.String()
-	bad, empty, full, timeouts := 0, 0, 0, 0
-	for it := 0; it < 300; it++ {
-		req := httptest.NewRequest("POST", "/", strings.NewReader(body))
-		req.Header.Set("content-type", "application/json")
-		ctx := req.Context()
-		d := time.Duration(500+it*37%3000) * time.Microsecond
-		var cancel context.CancelFunc = func() {}
-		if mode == "deadline" {
-			ctx, cancel = context.WithTimeout(ctx, d)
+	var parts []string
+	if e.vsn {
+		parts = append(parts, `"jsonrpc":"2.0"`)
+	} else if e.idtok%2 == 1 {
+		parts = append(parts, `"jsonrpc":"1.0"`)
+	}
+	if e.idkind != 0 {
+		parts = append(parts, `"id":`+idText(e.idkind, e.idtok))
+	}
+	switch e.method {
+	case 1:
+		b := e.behav
+		if b < 0 || b >= len(methodNames) {
+			b = 0
+		}
+		parts = append(parts, `"method":"`+methodNames[b]+`"`)
+		if e.params {
+			switch b {
+			case 3:
+				parts = append(parts, `"params":[`+strconv.Itoa(e.size-2)+`]`)
+			case 6:
+				parts = append(parts, fmt.Sprintf(`"params":["ev",%d,%d]`, e.sub, e.late))
+			default:
+				parts = append(parts, `"params":[1]`)
+			}
+		}
+	case 2:
+		parts = append(parts, `"method":"t_subscription"`)
+		if e.params {
+			parts = append(parts, `"params":{"subscription":"0x1","result":1}`)
+		}
+	default:
+		if e.params {
+			parts = append(parts, `"params":[1]`)
+		}
+	}
+	if e.result {
+		parts = append(parts, `"result":7`)
+	}
+	if e.error {
+		parts = append(parts, `"error":{"code":1,"message":"x"}`)
+	}
+	return "{" + strings.Join(parts, ",") + "}"
+}
+
+type message struct {
+	batch   bool
+	entries []entry
+	fire    int
+}
+
+func decMessage(x Sx) message {
+	l := AsList(x)
+	if len(l) != 3 {
+		panic("hxlib: message needs 3 fields")
+	}
+	m := message{fire: AsInt(l[2])}
+	if AsInt(l[0]) == 1 {
+		m.batch = true
+		for _, e := range AsList(l[1]) {
+			m.entries = append(m.entries, decEntry(e))
+		}
+	} else {
+		m.entries = []entry{decEntry(l[1])}
+	}
+	return m
+}
+
+func (m message) json() string {
+	if !m.batch {
+		return m.entries[0].json()
+	}
+	var sb strings.Builder
+	sb.WriteByte('[')
+	for i, e := range m.entries {
+		if i > 0 {
+			sb.WriteByte(',')
+		}
+		sb.WriteString(e.json())
+	}
+	sb.WriteByte(']')
+	return sb.String()
+}
+
+// ---------------------------------------------------------------- wire events
+
+type reply struct {
+	hasID bool
+	tok   int
+	kind  int
+	subID string // result, when it is a string (a subscription id)
+}
+
+type event struct {
+	kind    int // 0 single reply, 1 batch reply, 2 notification, 3 unparsable
+	replies []reply
+	subID   string
+	seq     int
+	epoch   int
+}
+
+func tokOf(raw json.RawMessage) int {
+	s := strings.TrimSpace(string(raw))
+	if s == "null" {
+		return 0
+	}
+	s = strings.Trim(s, `{}[]"`)
+	s = strings.TrimPrefix(s, `a":`)
+	s = strings.TrimPrefix(s, "s")
+	n, err := strconv.Atoi(s)
+	if err != nil {
+		return 999
+	}
+	return n
+}
+
+func classOf(code int) int {
+	switch code {
+	case -32600:
+		return 1
+	case -32601:
+		return 2
+	case -32602:
+		return 3
+	case -32000:
+		return 4
+	case -32002:
+		return 5
+	case -32003:
+		return 6
+	}
+	return 7
+}
+
+func parseReply(obj map[string]json.RawMessage) reply {
+	var r reply
+	if id, ok := obj["id"]; ok {
+		r.hasID = true
+		r.tok = tokOf(id)
+	}
+	if e, ok := obj["error"]; ok {
+		var je struct {
+			Code int `json:"code"`
+		}
+		json.Unmarshal(e, &je)
+		r.kind = classOf(je.Code)
+	} else if res, ok := obj["result"]; ok {
+		r.kind = 0
+		var s string
+		if json.Unmarshal(res, &s) == nil && strings.HasPrefix(s, "0x") {
+			r.subID = s
+		}
+	} else {
+		r.kind = 7
+	}
+	return r
+}
+
+func parseEvent(b []byte) event {
+	t := bytes.TrimSpace(b)
+	if len(t) > 0 && t[0] == '[' {
+		var arr []map[string]json.RawMessage
+		if json.Unmarshal(t, &arr) != nil {
+			return event{kind: 3}
+		}
+		ev := event{kind: 1}
+		for _, o := range arr {
+			ev.replies = append(ev.replies, parseReply(o))
+		}
+		return ev
+	}
+	var obj map[string]json.RawMessage
+	if json.Unmarshal(t, &obj) != nil {
+		return event{kind: 3}
+	}
+	if _, ok := obj["method"]; ok {
+		var p struct {
+			ID     string `json:"subscription"`
+			Result int    `json:"result"`
+		}
+		json.Unmarshal(obj["params"], &p)
+		return event{kind: 2, subID: p.ID, seq: p.Result}
+	}
+	return event{kind: 0, replies: []reply{parseReply(obj)}}
+}
+
+type recorder struct {
+	mu      sync.Mutex
+	events  []event
+	epoch   int
+	replyCh chan struct{}
+	cs      *caseState
+}
+
+func (r *recorder) record(b []byte) {
+	ev := parseEvent(b)
+	r.mu.Lock()
+	ev.epoch = r.epoch
+	r.events = append(r.events, ev)
+	r.mu.Unlock()
+	r.cs.markWritten()
+	if ev.kind != 2 {
+		select {
+		case r.replyCh <- struct{}{}:
+		default:
+		}
+	}
+}
+
+// in-memory rpc.Conn: requests come from a pipe, every Write is one wire event
+type memConn struct {
+	r   *io.PipeReader
+	rec *recorder
+}
+
+func (c *memConn) Read(p []byte) (int, error)       { return c.r.Read(p) }
+func (c *memConn) Write(p []byte) (int, error)      { c.rec.record(p); return len(p), nil }
+func (c *memConn) Close() error                     { return c.r.CloseWithError(io.EOF) }
+func (c *memConn) SetWriteDeadline(time.Time) error { return nil }
+
+type httpRecorder struct {
+	hdr http.Header
+	rec *recorder
+}
+
+func (w *httpRecorder) Header() http.Header         { return w.hdr }
+func (w *httpRecorder) WriteHeader(int)             {}
+func (w *httpRecorder) Write(p []byte) (int, error) { w.rec.record(p); return len(p), nil }
+func (w *httpRecorder) Flush()                      {}
+
+// ---------------------------------------------------------------- running
+
+func newServer(cs *caseState, il, rl int) *rpc.Server {
+	srv := rpc.NewServer()
+	if err := srv.RegisterName("t", &svc{cs}); err != nil {
+		panic(err)
+	}
+	srv.SetBatchLimits(il, rl)
+	return srv
+}
+
+func (m message) kept() []entry {
+	var out []entry
+	for _, e := range m.entries {
+		if !e.dropped() {
+			out = append(out, e)
+		}
+	}
+	return out
+}
+
+// does the JSON-RPC reading of the message call for a reply?
+func (m message) expectReply(il int) bool {
+	if m.batch {
+		if len(m.entries) == 0 || (il != 0 && len(m.entries) > il) {
+			return true
+		}
+	}
+	for _, e := range m.kept() {
+		if !e.isNotification() {
+			return true
+		}
+	}
+	return false
+}
+
+func runCodec(msgs []message, il, rl int) []event {
+	cs := &caseState{written: make(chan struct{})}
+	rec := &recorder{replyCh: make(chan struct{}, 64), cs: cs}
+	srv := newServer(cs, il, rl)
+	pr, pw := io.Pipe()
+	done := make(chan struct{})
+	go func() {
+		srv.ServeCodec(rpc.NewCodec(&memConn{pr, rec}), 0)
+		close(done)
+	}()
+	for i, m := range msgs {
+		rec.mu.Lock()
+		rec.epoch = i
+		rec.mu.Unlock()
+		for len(rec.replyCh) > 0 {
+			<-rec.replyCh
+		}
+		pw.Write([]byte(m.json() + "\n"))
+		if m.expectReply(il) {
+			select {
+			case <-rec.replyCh:
+			case <-time.After(3 * time.Second):
+			}
+		}
+	}
+	waitWG(&cs.late, 3*time.Second)
+	pw.Close() // EOF: the server waits for all handler goroutines (and their activations), then closes
+	select {
+	case <-done:
+	case <-time.After(5 * time.Second):
+	}
+	srv.Stop()
+	rec.mu.Lock()
+	defer rec.mu.Unlock()
+	return append([]event{}, rec.events...)
+}
+
+func waitWG(wg *sync.WaitGroup, d time.Duration) {
+	ch := make(chan struct{})
+	go func() { wg.Wait(); close(ch) }()
+	select {
+	case <-ch:
+	case <-time.After(d):
+	}
+}
+
+func runHTTP(body string, il, rl int, timeout time.Duration) ([]event, bool) {
+	cs := &caseState{written: make(chan struct{})}
+	rec := &recorder{replyCh: make(chan struct{}, 64), cs: cs}
+	srv := newServer(cs, il, rl)
+	req := httptest.NewRequest("POST", "/", strings.NewReader(body))
+	req.Header.Set("content-type", "application/json")
+	// the production HTTP path: ContextRequestTimeout derives the timeout from the
+	// http.Server's WriteTimeout (minus 100 ms) found in the request context
+	ctx := context.WithValue(req.Context(), http.ServerContextKey, &http.Server{WriteTimeout: 100*time.Millisecond + timeout})
+	srv.ServeHTTP(&httpRecorder{http.Header{}, rec}, req.WithContext(ctx))
+	srv.Stop()
+	return rec.events, cs.blockEntered.Load()
+}
+
+// ---------------------------------------------------------------- observation + oracle
+
+func replySx(r reply) Sx {
+	id := L()
+	if r.hasID {
+		id = L(I(int64(r.tok)))
+	}
+	return L(id, I(int64(r.kind)))
+}
+
+// events of one message -> observable (replies in arrival order, then one notification
+// group per created subscription, in entry order) and direct-oracle failures
+func observe(m message, evs []event, il int, allEvents []event) (Sx, []string) {
+	var fails []string
+	obs := SL{}
+	subOwner := map[string]int{} // subscription id -> id token of the subscribe call
+	var batchReplies, singleReplies [][]reply
+	for _, ev := range evs {
+		switch ev.kind {
+		case 0:
+			obs = append(obs, L(I(0), replySx(ev.replies[0])))
+			singleReplies = append(singleReplies, ev.replies)
+		case 1:
+			rs := SL{}
+			for _, r := range ev.replies {
+				rs = append(rs, replySx(r))
+			}
+			obs = append(obs, L(I(1), rs))
+			batchReplies = append(batchReplies, ev.replies)
+		case 3:
+			obs = append(obs, L(I(3)))
+			fails = append(fails, "unparsable bytes written")
+		}
+	}
+	isSub := map[int]entry{}
+	for _, e := range m.kept() {
+		if e.behav == 6 && e.method == 1 && e.isCall() {
+			isSub[e.idtok] = e
+		}
+	}
+	for _, rs := range append(append([][]reply{}, batchReplies...), singleReplies...) {
+		for _, r := range rs {
+			if _, ok := isSub[r.tok]; ok && r.hasID && r.kind == 0 && r.subID != "" {
+				subOwner[r.subID] = r.tok
+			}
+		}
+	}
+	for _, e := range m.kept() {
+		if !(e.behav == 6 && e.method == 1 && e.isCall()) {
+			continue
+		}
+		var sid string
+		for s, t := range subOwner {
+			if t == e.idtok {
+				sid = s
+			}
+		}
+		if sid == "" {
+			continue
+		}
+		seqs := SL{}
+		n := 0
+		for _, ev := range allEvents {
+			if ev.kind == 2 && ev.subID == sid {
+				seqs = append(seqs, I(int64(ev.seq)))
+				if ev.seq != n {
+					fails = append(fails, fmt.Sprintf("notification %d of subscription of call %d arrived at position %d", ev.seq, e.idtok, n))
+				}
+				n++
+			}
+		}
+		if n != e.sub+e.late {
+			fails = append(fails, fmt.Sprintf("subscription of call %d delivered %d of %d notifications", e.idtok, n, e.sub+e.late))
+		}
+		obs = append(obs, L(I(2), I(int64(e.idtok)), seqs))
+	}
+
+	// the property, on the wire
+	kept := m.kept()
+	var answerable []entry
+	for _, e := range kept {
+		if !e.isNotification() {
+			answerable = append(answerable, e)
+		}
+	}
+	switch {
+	case m.batch && len(m.entries) == 0:
+		if len(singleReplies) != 1 || len(batchReplies) != 0 || singleReplies[0][0].kind != 1 {
+			fails = append(fails, "empty batch not answered by exactly one invalid-request error")
+		}
+	case m.batch && il != 0 && len(m.entries) > il:
+		if len(batchReplies) != 1 || len(singleReplies) != 0 || len(batchReplies[0]) != 1 || batchReplies[0][0].kind != 1 {
+			fails = append(fails, "over-limit batch not answered by exactly one error")
+		}
+	case m.batch:
+		if len(singleReplies) != 0 {
+			fails = append(fails, "single reply written for a batch")
+		}
+		if len(batchReplies) > 1 {
+			fails = append(fails, fmt.Sprintf("batch reply written %d times", len(batchReplies)))
+		}
+		if len(answerable) == 0 {
+			if len(batchReplies) != 0 {
+				fails = append(fails, "reply to a batch with nothing to answer (notifications/responses only)")
+			}
+		} else if len(batchReplies) == 0 {
+			fails = append(fails, fmt.Sprintf("no reply for a batch with %d calls/invalid entries", len(answerable)))
 		} else {
-			ctx = context.WithValue(ctx, http.ServerContextKey, &http.Server{WriteTimeout: 100*time.Millisecond + d})
+			rs := batchReplies[0]
+			if len(rs) != len(answerable) {
+				fails = append(fails, fmt.Sprintf("batch reply has %d responses for %d calls/invalid entries", len(rs), len(answerable)))
+			}
+			for i := 0; i < len(rs) && i < len(answerable); i++ {
+				e := answerable[i]
+				if e.isCall() {
+					if !rs[i].hasID || rs[i].tok != e.idtok {
+						fails = append(fails, fmt.Sprintf("response %d does not carry the id of call %d", i, e.idtok))
+					}
+				} else if rs[i].kind == 0 {
+					fails = append(fails, fmt.Sprintf("invalid entry %d answered with a result", i))
+				}
+			}
 		}
-		req = req.WithContext(ctx)
-		w := httptest.NewRecorder()
-		srv.ServeHTTP(w, req)
-		cancel()
-		out := w.Body.Bytes()
-		if len(out) == 0 {
-			empty++
-			continue
+	default:
+		if len(batchReplies) != 0 {
+			fails = append(fails, "batch reply written for a single message")
 		}
-		var resp []json.RawMessage
-		if err := json.Unmarshal(out, &resp); err != nil {
-			fmt.Println("unparsable", err, len(out))
-			continue
+		e := m.entries[0]
+		switch {
+		case e.dropped() || e.isNotification():
+			if len(singleReplies) != 0 {
+				fails = append(fails, "reply written for a notification/response")
+			}
+		default:
+			if len(singleReplies) != 1 {
+				fails = append(fails, fmt.Sprintf("single message answered %d times", len(singleReplies)))
+			} else if r := singleReplies[0][0]; e.isCall() && (!r.hasID || r.tok != e.idtok) {
+				fails = append(fails, "single reply does not carry the call's id")
+			} else if !e.isCall() && r.kind == 0 {
+				fails = append(fails, "invalid single message answered with a result")
+			}
 		}
-		if strings.Contains(string(out), "timed out") {
-			timeouts++
+	}
+	return obs, fails
+}
+
+// subscription notifications only after the reply that carries the subscription id
+func notifOrder(all []event) []string {
+	seen := map[string]bool{}
+	var fails []string
+	for _, ev := range all {
+		switch ev.kind {
+		case 0, 1:
+			for _, r := range ev.replies {
+				if r.subID != "" {
+					seen[r.subID] = true
+				}
+			}
+		case 2:
+			if !seen[ev.subID] {
+				fails = append(fails, "notification written before the subscribe response")
+			}
 		}
-		if len(resp) != n {
-			bad++
-			if bad < 5 {
-				fmt.Println("partial batch:", len(resp), "of", n, "timeout", d)
+	}
+	return fails
+}
+
+func runProbe(n, us int) Result {
+	var sb strings.Builder
+	sb.WriteByte('[')
+	for i := 1; i <= n; i++ {
+		if i > 1 {
+			sb.WriteByte(',')
+		}
+		fmt.Fprintf(&sb, `{"jsonrpc":"2.0","id":%d,"method":"t_quick"}`, i)
+	}
+	sb.WriteByte(']')
+	evs, _ := runHTTP(sb.String(), 0, 0, time.Duration(us)*time.Microsecond)
+	res := Result{Tags: []string{"probe"}, NonTrivial: true}
+	count, ok := 0, false
+	timeouts := 0
+	if len(evs) == 1 && evs[0].kind == 1 {
+		rs := evs[0].replies
+		count, ok = len(rs), true
+		for i, r := range rs {
+			if !r.hasID || r.tok != i+1 || (r.kind != 0 && r.kind != 5) {
+				ok = false
+			}
+			if r.kind == 5 {
+				timeouts++
+			}
+		}
+	}
+	res.Obs = L(I(int64(count)), Bool(ok))
+	if count != n || !ok {
+		res.Oracle = fmt.Sprintf("C49-timeout-race: batch of %d calls under a %dus timeout: %d wire events, reply answers %d calls", n, us, len(evs), count)
+	}
+	if timeouts > 0 && timeouts < n {
+		res.Tags = append(res.Tags, "probe-timeout-midbatch")
+	}
+	return res
+}
+
+func run(c Sx) Result {
+	top := AsList(c)
+	if len(top) == 3 && AsInt(top[0]) == 9 {
+		return runProbe(AsInt(top[1]), AsInt(top[2]))
+	}
+	if len(top) != 5 {
+		panic("hxlib: case needs 5 fields")
+	}
+	mode, il, rl := AsInt(top[0]), AsInt(top[1]), AsInt(top[2])
+	var msgs []message
+	for _, x := range AsList(top[4]) {
+		msgs = append(msgs, decMessage(x))
+	}
+	validate(mode, msgs)
+	res := Result{}
+	var all []event
+	if mode == 0 {
+		all = runCodec(msgs, il, rl)
+		res.Tags = append(res.Tags, "codec")
+	} else {
+		if len(msgs) != 1 {
+			panic("hxlib: HTTP case needs exactly one message")
+		}
+		res.Tags = append(res.Tags, "http")
+		m := msgs[0]
+		if m.fire < 0 {
+			all, _ = runHTTP(m.json(), il, rl, 30*time.Second)
+		} else {
+			res.Tags = append(res.Tags, "timeout-fires")
+			// the scripted schedule needs the timer to fire while t_block runs; if the
+			// machine stalled before t_block was entered, retry with a longer timeout
+			for _, d := range []time.Duration{20, 80, 320} {
+				var entered bool
+				all, entered = runHTTP(m.json(), il, rl, d*time.Millisecond)
+				if entered {
+					break
+				}
+			}
+		}
+	}
+	obs := SL{}
+	var fails []string
+	classes := map[string]bool{}
+	for i, m := range msgs {
+		var evs []event
+		for _, ev := range all {
+			if ev.epoch == i && ev.kind != 2 {
+				evs = append(evs, ev)
+			}
+		}
+		o, f := observe(m, evs, il, all)
+		obs = append(obs, o)
+		fails = append(fails, f...)
+		if m.batch {
+			res.Tags = append(res.Tags, "batch")
+			if len(m.entries) == 0 {
+				res.Tags = append(res.Tags, "empty-batch")
+			} else if il != 0 && len(m.entries) > il {
+				res.Tags = append(res.Tags, "over-item-limit")
 			}
 		} else {
-			full++
+			res.Tags = append(res.Tags, "single")
+		}
+		for _, e := range m.entries {
+			switch {
+			case e.isResponse():
+				classes["response"] = true
+			case e.isNotification():
+				classes["notification"] = true
+			case e.isCall():
+				classes["call"] = true
+				if e.behav == 6 {
+					classes["subscribe"] = true
+				}
+			default:
+				classes["invalid"] = true
+			}
+		}
+		for _, ev := range evs {
+			for _, r := range ev.replies {
+				if r.kind == 6 {
+					classes["resp-too-large"] = true
+				}
+				if r.kind == 5 {
+					classes["timeout-error"] = true
+				}
+			}
 		}
 	}
-	fmt.Println("mode", mode, "empty", empty, "partial", bad, "full", full, "withTimeoutErr", timeouts)
+	fails = append(fails, notifOrder(all)...)
+	for k := range classes {
+		res.Tags = append(res.Tags, k)
+	}
+	res.Obs = obs
+	if len(fails) > 0 {
+		res.Oracle = "C49: " + strings.Join(fails, "; ")
+	}
+	res.NonTrivial = len(classes) >= 2
+	return res
+}
+
+// ---------------------------------------------------------------- generator
+
+func errSize(code int, msg string) int {
+	b, _ := json.Marshal(struct {
+		Code    int    `json:"code"`
+		Message string `json:"message"`
+	}{code, msg})
+	return len(b)
+}
+
+var (
+	subNotifSize = errSize(-32601, "the method t_subscription does not exist/is not available")
+	invSize      = errSize(-32600, "invalid request")
+	failSize     = errSize(-32000, "boom")
+	nosuchSize   = errSize(-32601, "the method t_nosuch does not exist/is not available")
+	badParSize   = errSize(-32602, "too many arguments, want at most 0")
+)
+
+// a well-formed call or notification of the given behaviour
+func mkExec(r *Rng, behav int, tok int, notification bool) entry {
+	e := entry{vsn: true, idkind: 1, idtok: tok, method: 1, sub: -1, behav: behav}
+	if notification {
+		e.idkind = 0
+	}
+	switch behav {
+	case 0:
+		e.out, e.size = 0, 1
+	case 1:
+		e.out, e.size = 4, failSize
+	case 2:
+		e.out, e.size = 2, nosuchSize
+	case 3:
+		n := r.Range(0, 60)
+		e.out, e.size, e.params = 0, n+2, true
+	case 4:
+		e.out, e.size, e.params = 3, badParSize, true
+	case 5:
+		e.out, e.size = 0, 1
+	case 6:
+		e.out, e.size, e.params = 0, 0, true
+		e.sub, e.late = r.Range(0, 3), r.Range(0, 3)
+	}
+	return e
+}
+
+// fixup restores the generator's conventions after feature flips: the service-behaviour
+// fields follow from behav, and a subscribe entry is always a well-formed call
+func fixup(e *entry) {
+	if e.method != 1 {
+		e.behav, e.sub, e.late, e.out, e.size = 0, -1, 0, 0, 0
+		if e.method == 2 { // executed only when it carries an id: no such method
+			e.out, e.size = 2, subNotifSize
+		}
+		return
+	}
+	if e.behav == 6 && !(e.vsn && e.idkind == 1) {
+		e.behav = 0
+	}
+	switch e.behav {
+	case 0:
+		e.out, e.size, e.params, e.sub, e.late = 0, 1, false, -1, 0
+	case 1:
+		e.out, e.size, e.params, e.sub, e.late = 4, failSize, false, -1, 0
+	case 2:
+		e.out, e.size, e.params, e.sub, e.late = 2, nosuchSize, false, -1, 0
+	case 3:
+		if e.size < 2 {
+			e.size = 2
+		}
+		e.out, e.params, e.sub, e.late = 0, true, -1, 0
+	case 4:
+		e.out, e.size, e.params, e.sub, e.late = 3, badParSize, true, -1, 0
+	case 5:
+		e.out, e.size, e.params, e.sub, e.late = 0, 1, false, -1, 0
+	case 6:
+		e.out, e.size, e.params = 0, 0, true
+		if e.sub < 0 {
+			e.sub = 0
+		}
+		if e.late < 0 {
+			e.late = 0
+		}
+	default:
+		e.behav = 0
+		e.out, e.size, e.params, e.sub, e.late = 0, 1, false, -1, 0
+	}
+}
+
+// validate rejects (as a harness shape error, never as an observation) cases outside the
+// generator's conventions, which the shrinker can otherwise wander into
+func validate(mode int, msgs []message) {
+	bad := func(why string) { panic("hxlib: case outside the generator's conventions: " + why) }
+	if mode == 1 && len(msgs) != 1 {
+		bad("HTTP case needs exactly one message")
+	}
+	subToks := map[int]int{}
+	toks := map[int]int{}
+	for _, m := range msgs {
+		if len(m.entries) == 0 && !m.batch {
+			bad("single without entry")
+		}
+		blocks := 0
+		keptBefore := 0
+		for _, e := range m.entries {
+			f := e
+			fixup(&f)
+			if f != e {
+				bad("service-behaviour fields do not follow from behav")
+			}
+			if e.idkind != 0 {
+				toks[e.idtok]++
+			}
+			if e.method == 1 && e.behav == 6 {
+				if mode == 1 || e.sub > 8 || e.late > 8 {
+					bad("subscribe entry")
+				}
+				subToks[e.idtok]++
+			}
+			if e.method == 1 && e.behav == 5 {
+				blocks++
+				if mode != 1 || m.fire != keptBefore || !(e.isCall() || (m.batch && e.isNotification())) {
+					bad("blocking entry must be the executed entry at which the timer fires")
+				}
+			}
+			if !e.dropped() {
+				keptBefore++
+			}
+		}
+		if (m.fire >= 0) != (blocks == 1) || blocks > 1 {
+			bad("fire without exactly one blocking entry")
+		}
+	}
+	for t, n := range subToks {
+		if n > 1 || toks[t] > 1 {
+			bad("subscribe call with a duplicated id")
+		}
+	}
+}
+
+func genEntry(r *Rng, nextTok *int, usedToks []int, allowSub bool, adversarial bool) entry {
+	tok := *nextTok
+	*nextTok++
+	dup := false
+	if len(usedToks) > 0 && r.Chance(1, 8) {
+		tok = usedToks[r.Intn(len(usedToks))] // duplicate id
+		dup = true
+	}
+	if r.Chance(1, 25) {
+		tok = 0 // "id": null
+		dup = true
+	}
+	behaviours := []int{0, 0, 0, 1, 2, 3, 3, 4}
+	if allowSub && !dup {
+		behaviours = append(behaviours, 6, 6)
+	}
+	var e entry
+	switch x := r.Intn(20); {
+	case x < 10: // call
+		e = mkExec(r, behaviours[r.Intn(len(behaviours))], tok, false)
+	case x < 14: // notification
+		b := behaviours[r.Intn(len(behaviours))]
+		if b == 6 {
+			b = 0
+		}
+		e = mkExec(r, b, tok, true)
+	case x < 16: // response (to a request we never sent)
+		e = entry{vsn: true, idkind: 1, idtok: tok, sub: -1, result: r.Bool()}
+		e.error = !e.result || r.Chance(1, 4)
+	case x < 17: // subscription notification addressed to a client
+		e = entry{vsn: true, idkind: 0, idtok: tok, method: 2, params: r.Bool(), sub: -1}
+	default: // invalid request
+		e = entry{vsn: r.Bool(), idkind: r.Intn(3), idtok: tok, method: r.Intn(2), params: r.Bool(), result: r.Chance(1, 4), error: r.Chance(1, 4), sub: -1}
+		if e.isCall() || e.isNotification() || e.isResponse() {
+			e.vsn = false
+		}
+		if r.Chance(1, 5) {
+			e = entry{idtok: 7 + r.Intn(3), sub: -1} // null, 1, "str"
+		}
+		if e.method == 1 {
+			e.out, e.size = 0, 1
+		}
+	}
+	if adversarial && r.Chance(1, 2) {
+		switch r.Intn(6) {
+		case 0:
+			e.vsn = !e.vsn
+		case 1:
+			e.idkind = r.Intn(3)
+		case 2:
+			e.method = r.Intn(3)
+		case 3:
+			e.result = !e.result
+		case 4:
+			e.error = !e.error
+		case 5:
+			if e.method != 1 {
+				e.params = !e.params
+			}
+		}
+	}
+	fixup(&e)
+	return e
+}
+
+func genMessage(r *Rng, nextTok *int, allowSub, adversarial bool) (message, bool) {
+	hasSub := false
+	var used []int
+	if r.Chance(1, 4) {
+		e := genEntry(r, nextTok, nil, allowSub, adversarial)
+		return message{entries: []entry{e}, fire: -1}, e.behav == 6
+	}
+	n := r.Range(0, 7)
+	if r.Chance(1, 12) {
+		n = r.Range(8, 14)
+	}
+	m := message{batch: true, fire: -1}
+	for i := 0; i < n; i++ {
+		e := genEntry(r, nextTok, used, allowSub, adversarial)
+		if e.behav == 6 {
+			hasSub = true
+		} else {
+			used = append(used, e.idtok)
+		}
+		m.entries = append(m.entries, e)
+	}
+	return m, hasSub
+}
+
+// sum of response sizes of the answerable kept entries, to place the response limit
+func respSizes(m message) []int {
+	var out []int
+	for _, e := range m.kept() {
+		if e.isNotification() {
+			continue
+		}
+		if e.isCall() {
+			out = append(out, e.size)
+		} else {
+			out = append(out, invSize)
+		}
+	}
+	return out
+}
+
+func emitCase(emit func(Sx), mode, il, rl int, msgs []message) {
+	ms := SL{}
+	for _, m := range msgs {
+		if m.batch {
+			es := SL{}
+			for _, e := range m.entries {
+				es = append(es, e.sx())
+			}
+			ms = append(ms, L(I(1), es, I(int64(m.fire))))
+		} else {
+			ms = append(ms, L(I(0), m.entries[0].sx(), I(int64(m.fire))))
+		}
+	}
+	emit(L(I(int64(mode)), I(int64(il)), I(int64(rl)), I(int64(invSize)), ms))
+}
+
+func pickLimits(r *Rng, msgs []message, hasSub bool) (il, rl int) {
+	m := msgs[r.Intn(len(msgs))]
+	if r.Chance(1, 3) && m.batch {
+		il = len(m.entries) + r.Range(-1, 1)
+		if il < 0 {
+			il = 0
+		}
+	} else if r.Chance(1, 6) {
+		il = r.Range(1, 4)
+	}
+	if !hasSub && r.Chance(1, 3) {
+		sizes := respSizes(m)
+		sum := 0
+		var sums []int
+		for _, s := range sizes {
+			sum += s
+			sums = append(sums, sum)
+		}
+		if len(sums) > 0 {
+			rl = sums[r.Intn(len(sums))] + r.Range(-1, 1)
+			if rl < 0 {
+				rl = 0
+			}
+		}
+	}
+	return
+}
+
+func gen(r *Rng, tier string, emit func(Sx)) {
+	scale := 1
+	if tier == "thorough" {
+		scale = 10
+	}
+	// race probes first: a batch of trivial calls whose timeout fires between calls
+	for i := 0; i < 24*scale; i++ {
+		emit(L(I(9), I(int64(r.Range(2000, 4000))), I(int64(r.Range(150, 2500)))))
+	}
+	// connections served by ServeCodec: sequences of singles and batches, no timeouts
+	for i := 0; i < 1200*scale; i++ {
+		adversarial := i%3 == 2
+		nextTok := 1
+		var msgs []message
+		hasSub := false
+		for k := r.Range(1, 3); k > 0; k-- {
+			m, s := genMessage(r, &nextTok, true, adversarial)
+			msgs = append(msgs, m)
+			hasSub = hasSub || s
+		}
+		il, rl := pickLimits(r, msgs, hasSub)
+		emitCase(emit, 0, il, rl, msgs)
+	}
+	// HTTP requests with a configured timeout that does not fire
+	for i := 0; i < 300*scale; i++ {
+		nextTok := 1
+		m, _ := genMessage(r, &nextTok, false, i%3 == 2)
+		il, rl := pickLimits(r, []message{m}, false)
+		emitCase(emit, 1, il, rl, []message{m})
+	}
+	// HTTP requests whose timeout fires while a blocking call executes
+	for i := 0; i < 100*scale; i++ {
+		nextTok := 1
+		m, _ := genMessage(r, &nextTok, false, i%3 == 2)
+		il := 0
+		if m.batch && r.Chance(1, 4) {
+			il = len(m.entries) + 1 + r.Intn(2)
+		}
+		if !m.batch {
+			// single: a blocking call (a blocking single notification under a timeout is
+			// answered by the timer callback: reported separately, see C49_single_notification_timeout_refuted)
+			tok := nextTok
+			m.entries = []entry{mkExec(r, 5, tok, false)}
+			m.fire = 0
+		} else {
+			pos := r.Intn(len(m.entries) + 1)
+			blk := mkExec(r, 5, nextTok, r.Chance(1, 5))
+			es := append([]entry{}, m.entries[:pos]...)
+			es = append(es, blk)
+			es = append(es, m.entries[pos:]...)
+			m.entries = es
+			m.fire = 0
+			for _, e := range m.entries[:pos] {
+				if !e.dropped() {
+					m.fire++
+				}
+			}
+		}
+		emitCase(emit, 1, il, 0, []message{m})
+	}
+}
+
+func main() {
+	Main(Family{
+		ID: "C49",
+		Rule: "probes: batches of 2000-4000 trivial calls under a 0.15-2.5 ms HTTP timeout (all ids must be answered exactly once); " +
+			"connections (ServeCodec, in-memory) carrying 1-3 messages, each a single entry or a batch of 0-14 entries drawn from " +
+			"calls (quick/failing/unknown method/large result/bad params/subscribe with buffered+late notifications), notifications, " +
+			"responses, *_subscription notifications, invalid requests (bad version, object/array id, no method, non-object), duplicate and null ids, " +
+			"item limit around the batch length and response-size limit around the cumulative sizes; every third case feature-flipped; " +
+			"HTTP requests with a timeout that does not fire, and with a timeout that fires while a blocking call (any position) executes. " +
+			"Non-trivial: the case mixes at least two entry classes or is a probe.",
+		Gen: gen,
+		Run: run,
+	})
 }
